@@ -582,6 +582,11 @@ package zygo
 //@ ghost wantedName := "[]" + rt.RegisteredName @entry
 //@ C17 assert slice-type-is-named-after-the-registered-element-type @before call Lookup[0]: arg1 == wantedName
 //@ C17 assert slice-type-is-registered-under-that-name @before call RegisterUserdef[0]: len(arg3) == 1 && arg3[0] == wantedName
+// an array element starts with a real token: the token the array parser has looked at when it hands
+// over to the expression parser is neither a separator comma nor the end-of-input marker, whether or
+// not the parser paused for more input in between
+//@ func (*Parser).ParseArray
+//@ C13 assert an-element-starts-with-a-real-token @before call ParseExpression[*]: tok.typ != TokenComma && tok.typ != TokenEnd
 // mdef: every target slot is filled with a symbol before the value is compiled; the bind
 // instruction hands each one to BindSymbol, which dereferences it
 //@ func (*Generator).GenerateMultiDef
